@@ -86,7 +86,7 @@ def replay(cases, rnd, nvariants=2, chunk=150, want_extra=None, main="a", jobs=N
         for ui, u in enumerate(ch):
             c = cases[u["ci"]]
             jcases.append({"id": len(records), "path": u["pre"] + main, "data": c["data"], "tree": c.get("tree"),
-                           "steps": c.get("steps", []), "tmpl": c.get("tmpl", ""), "paths": c.get("paths", False),
+                           "steps": c.get("steps", []), "tmpl": c.get("tmpl", ""), "paths": c.get("paths", False), "mergeText": c.get("mergeText", False),
                            "pre": u["pre"]})
             ws = []
             for p, _ in u["srcs"]:
